@@ -163,6 +163,34 @@ func c17xFromY2(v *big.Int) *big.Int {
 	return ref.SqrtP(x2)
 }
 
+// c17xFromY solves the curve equation for x given y: x^2 = (1 - y^2)/(a - d*y^2).
+func c17xFromY(y *big.Int) *big.Int {
+	y2 := ref.MulP(y, y)
+	den := ref.SubP(ref.CurveA, ref.MulP(ref.CurveD, y2))
+	if den.Sign() == 0 {
+		return nil
+	}
+	return ref.SqrtP(ref.MulP(ref.SubP(bigOne, y2), ref.InvP(den)))
+}
+
+// c17thresholdXs returns x-coordinates of curve points whose y lies right next to a value at which the sign selection
+// or a comparison could flip: (p-1)/2, 0, p-1, limb boundaries.
+func c17thresholdXs() []*big.Int {
+	var out []*big.Int
+	half := new(big.Int).Rsh(ref.P, 1)
+	centres := []*big.Int{half, new(big.Int), new(big.Int).Sub(ref.P, bigOne), new(big.Int).Lsh(bigOne, 64), new(big.Int).Lsh(bigOne, 128), new(big.Int).Lsh(bigOne, 192),
+		new(big.Int).Add(half, new(big.Int).Lsh(bigOne, 63)), new(big.Int).Add(half, new(big.Int).Lsh(bigOne, 64)), new(big.Int).Sub(half, new(big.Int).Lsh(bigOne, 64))}
+	for _, ctr := range centres {
+		for d := int64(-60); d <= 60; d++ {
+			y := new(big.Int).Mod(new(big.Int).Add(ctr, big.NewInt(d)), ref.P)
+			if x := c17xFromY(y); x != nil {
+				out = append(out, x, ref.NegP(x))
+			}
+		}
+	}
+	return out
+}
+
 func runC17(c *mon.Ctx) {
 	// validate the generator's constants
 	if new(big.Int).Exp(c17omega, new(big.Int).Lsh(bigOne, 31), ref.P).Cmp(new(big.Int).Sub(ref.P, bigOne)) != 0 {
@@ -204,6 +232,13 @@ func runC17(c *mon.Ctx) {
 				})
 			}
 		}
+	}
+	if c.Mine(0) {
+		c.Case("y-adjacent-to-thresholds", func() {
+			for _, x := range c17thresholdXs() {
+				c17point(c, x, "y-adjacent-to-threshold")
+			}
+		})
 	}
 	// roots of unity of every 2-power order, edge values, small integers, random
 	nr := c.Pick(160, 1600)
